@@ -51,7 +51,8 @@ pub fn build(mut t: Tape) -> Built {
             Built { call, world: w, expected, family, normalise: None, detail }
         }
         _ => {
-            let st = Gs3State::generate(&mut t, 64, false);
+            let mut st = Gs3State::generate(&mut t, 64, false);
+            st.cut_values_resent = t.draw(CFG, 3) == 0;
             let packets = 1 + t.draw(CFG, 7) as usize;
             let payloads = st.payloads(&mut t, packets);
             let expected = if vars { json!(st.pairs().into_iter().collect::<std::collections::BTreeMap<_, _>>()) } else { st.expected() };
